@@ -650,8 +650,9 @@ class GenFunctions(object):
 
         attrs = dict(
             val=dict(
-                intent="in", value=True
-            )  # XXX - what about pointer variables?
+                # A pointer member is set from the address of the argument.
+                intent="in", value=not ast.is_indirect()
+            )
         )
 
         splicer = dict(
